@@ -40,7 +40,7 @@ func mDescribe(v mValue) string {
 		return fmt.Sprintf("int64:%d", v)
 	case *mErr:
 		return "[Error:" + v.kind + "]"
-	case *mIt, *mGen, *mArr, *mIterRes, *mPromise:
+	case *mIt, *mIb, *mGen, *mArr, *mIterRes, *mPromise:
 		return "[Object]"
 	}
 	return fmt.Sprintf("?%T", v)
@@ -86,6 +86,11 @@ func mTypeErr() completion       { return throwC(&mErr{kind: "TypeError"}) }
 // mIt mirrors the JS helper mkIt(s, n, fl).
 type mIt struct {
 	site, n, flags, i int
+}
+
+// mIb mirrors mkIb(s, n, fl): GetIterator calls its [Symbol.iterator]() method, a probe (site+3).
+type mIb struct {
+	site, n, flags int
 }
 
 const (
@@ -203,6 +208,18 @@ func (m *ctlModel) getIterator(v mValue) (*mIterRec, completion) {
 		return &mIterRec{obj: v}, normalC
 	case *mArr:
 		return &mIterRec{obj: &mArrIter{arr: v}}, normalC
+	case *mIb:
+		d, fatal := m.probe(v.site+3, "undefined")
+		if fatal {
+			return nil, completion{t: cFatal}
+		}
+		switch d % 4 {
+		case 1:
+			return nil, throwC(1000 + v.site + 3)
+		case 2:
+			return nil, mTypeErr() // the method returned a non-object
+		}
+		return &mIterRec{obj: &mIt{site: v.site, n: v.n, flags: v.flags}}, normalC
 	}
 	return nil, mTypeErr()
 }
@@ -275,7 +292,7 @@ func (m *ctlModel) callReturn(it mValue, v mValue) (mValue, completion) {
 		case 3:
 			return &mIterRes{value: 3}, normalC
 		}
-		return &mIterRes{value: v, done: true}, normalC
+		return &mIterRes{value: mNorm(v) + 100, done: true}, normalC
 	case *mGen:
 		return m.genResume(it, resumeMsg{kind: cReturn, v: v})
 	}
